@@ -237,8 +237,9 @@ type c06Ident struct{ NS, Name string }
 // claim (abstract content), recorded from the real run.
 type c06Read struct {
 	Found    bool   `json:"found"`
-	Stale    bool   `json:"stale"` // an older version than the stored one
-	Ref      string `json:"ref"`   // canonical spec.resourceRef: apiVersion|kind|name ("" = unset)
+	Stale    bool   `json:"stale"`          // an older version than the stored one
+	Gone     bool   `json:"gone,omitempty"` // the claim no longer exists: the cache served a version from before its deletion
+	Ref      string `json:"ref"`            // canonical spec.resourceRef: apiVersion|kind|name ("" = unset)
 	Fin      bool   `json:"fin"`
 	Deleting bool   `json:"deleting"`
 }
@@ -607,6 +608,13 @@ func c06ApplyEnv(st *Store, e c06Env, tick *int, ids []c06Ident) {
 				})
 			}
 		}
+	case "claimCreate":
+		// the claim, gone (its deletion completed), is created again under the same name: a NEW object (new uid, no
+		// reference, no finalizer). The informer cache may still serve versions of the old incarnation (c06Rec.Lag
+		// reaches back across the deletion: simstore keeps the history of the key).
+		if st.Peek(cgk, id.NS, id.Name) == nil {
+			c06SeedClaim(st, c06Claim{}, id)
+		}
 	case "claimRetype":
 		// somebody (a restore from a backup taken under another served version, a hand edit) rewrites
 		// apiVersion/kind of spec.resourceRef; the name stays
@@ -708,10 +716,11 @@ type c06Cache struct {
 	// read of a reconcile) and every availability Get of the name generator (the one right after a name was
 	// drawn; the latest counts when a name is drawn twice); the Get inside the client-side Apply is not looked at
 	// by the code and only counts for a name no deciding read returned anything for.
-	views map[string]string
-	draws int            // names drawn by the generator in this reconcile
-	drawn int            // ... of which an availability Get was seen
-	ops   map[int]string // call index of the current reconcile -> which managed-fields JSON patch it was
+	views       map[string]string
+	draws       int            // names drawn by the generator in this reconcile
+	drawn       int            // ... of which an availability Get was seen
+	ops         map[int]string // call index of the current reconcile -> which managed-fields JSON patch it was
+	claimServed bool           // the reconcile's first read of its claim has been answered
 }
 
 func (c *c06Cache) setView(name, v string) {
@@ -795,7 +804,33 @@ func (c *c06Cache) Get(ctx context.Context, key client.ObjectKey, obj client.Obj
 	gvk, err := apiutil.GVKForObject(obj, c.Store.Scheme())
 	if err != nil || gvk.GroupKind() != c06XRGVK.GroupKind() {
 		n0, before := len(c.Store.Log), c06Content(obj)
-		return c.fix(n0, obj, before, c.Store.Get(ctx, key, obj, opts...))
+		gerr := c.Store.Get(ctx, key, obj, opts...)
+		// The claim is GONE but the informer cache lags: the reconcile's first read of its claim is served a version
+		// from before the deletion (the absence counts as the newest state: lag 1 = the last stored version).
+		if gerr != nil && kerrors.IsNotFound(gerr) && err == nil && c.rec != nil && len(c.Store.Log) > n0 && c.rec.Lag > 0 && !c.claimServed &&
+			gvk.GroupKind() == c06ClaimGVK.GroupKind() && key.Namespace == c.who.NS && key.Name == c.who.Name {
+			last := &c.Store.Log[len(c.Store.Log)-1]
+			_, isF := c.faults[last.Index]
+			h := c.Store.History[objKey{gvk.GroupKind(), key.Namespace, key.Name}]
+			if last.Outcome == "ok" && !isF && len(h) > 0 {
+				idx := len(h) - c.rec.Lag
+				if idx < 0 {
+					idx = 0
+				}
+				m := runtime.DeepCopyJSON(h[idx])
+				m["apiVersion"] = gvk.GroupVersion().String()
+				obj.(runtime.Unstructured).SetUnstructuredContent(m)
+				a := c06AbsClaim(&unstructured.Unstructured{Object: m})
+				c.rec.Read = c06Read{Found: true, Stale: true, Gone: true, Ref: a.Ref, Fin: a.Fin, Deleting: a.Deleting}
+				last.Err = ""
+				c.claimServed = true
+				return nil
+			}
+		}
+		if gvk.GroupKind() == c06ClaimGVK.GroupKind() {
+			c.claimServed = true
+		}
+		return c.fix(n0, obj, before, gerr)
 	}
 	n0 := len(c.Store.Log)
 	before := runtime.DeepCopyJSON(obj.(runtime.Unstructured).UnstructuredContent())
@@ -1053,6 +1088,9 @@ func c06Run(s *c06Scn) (c06Obs, []Mon) {
 	// last spec.resourceRef.name seen stored
 	created := make([]map[string]bool, len(ids))
 	lastRef := make([]string, len(ids))
+	lastUID := make([]string, len(ids))
+	recreated := make([]bool, len(ids)) // a second incarnation of the claim has been seen
+	lied := map[string]bool{}           // XR names a write to which was answered an injected NotFound while the XR existed
 	for i, id := range ids {
 		created[i] = map[string]bool{}
 		lastRef[i] = c06XRefName(st.Peek(cgk, id.NS, id.Name))
@@ -1086,6 +1124,12 @@ func c06Run(s *c06Scn) (c06Obs, []Mon) {
 	var preXRBind string // full spec.claimRef + claim labels of the XR a write is addressed to
 	var preClaimRef string
 	var preClaimExists bool
+	// did a write to the reconciled claim take effect earlier in this reconcile? (the rv-checked claim write that
+	// must precede every creation of an XR)
+	claimWritten := false
+	// claims for which the client-side syncer created an XR out of a stale copy without any claim write (finding
+	// C06:xr-created-from-stale-claim-without-claim-write): the XR count clauses are then attributed to that finding
+	tainted := make([]bool, len(ids))
 
 	checkStore := func(when string) {
 		for i, id := range ids {
@@ -1096,8 +1140,24 @@ func c06Run(s *c06Scn) (c06Obs, []Mon) {
 			// (1) never more than one XR bound to a claim: its claimRef is that claim's reference in
 			// apiVersion, kind, namespace and name (or, without a claimRef, it carries the claim's labels;
 			// the labels alone do not identify the claim: they have no kind / apiVersion)
+			if cur := st.Peek(cgk, id.NS, id.Name); cur != nil {
+				if uid := string(cur.GetUID()); uid != lastUID[i] {
+					// another incarnation of the claim (deleted and created again under the same name): a new object
+					if lastUID[i] != "" {
+						lastRef[i] = ""
+						created[i] = map[string]bool{}
+						recreated[i] = true
+					}
+					lastUID[i] = uid
+				}
+			}
 			var bound, ns []string
 			for _, u := range st.OfKind(xgk) {
+				if recreated[i] && lied[u.GetName()] {
+					// an XR of the OLD incarnation that survived only because the API server answered NotFound to a write
+					// addressed to it while it existed (an injected lie no real server tells): not counted against the new one
+					continue
+				}
 				cl := c06RefClass(u, id)
 				if cl == "self" {
 					bound = append(bound, u.GetName())
@@ -1107,7 +1167,7 @@ func c06Run(s *c06Scn) (c06Obs, []Mon) {
 				}
 			}
 			sort.Strings(ns)
-			if len(ns) > 1 {
+			if len(ns) > 1 && !tainted[i] {
 				addMon("C06:second-xr", fmt.Sprintf("%s: %d XRs carry this claim's claimRef/labels: %v%s", when, len(ns), ns, tag))
 			}
 			cl := st.Peek(cgk, id.NS, id.Name)
@@ -1123,7 +1183,7 @@ func c06Run(s *c06Scn) (c06Obs, []Mon) {
 			lastRef[i] = ref
 			// (3) the one XR bound to the claim is the one its durable reference names
 			for _, n := range bound {
-				if n != ref {
+				if n != ref && !tainted[i] {
 					addMon("C06:bound-not-referenced", fmt.Sprintf("%s: XR %q carries this claim's claimRef but the claim's stored spec.resourceRef.name is %q%s", when, n, ref, tag))
 				}
 			}
@@ -1147,10 +1207,11 @@ func c06Run(s *c06Scn) (c06Obs, []Mon) {
 		}
 		st.Plan = func(c CallInfo) Outcome { return faults[c.Index] }
 		rec.Read = c06Read{}
+		claimWritten = false
 		rec.Names = []string{}
 		rec.XReads = []c06XRead{}
 		curRec = rec
-		cache.rec, cache.who, cache.views, cache.draws, cache.drawn, cache.ops = rec, me, map[string]string{}, 0, 0, map[int]string{}
+		cache.rec, cache.who, cache.views, cache.draws, cache.drawn, cache.ops, cache.claimServed = rec, me, map[string]string{}, 0, 0, map[int]string{}, false
 		claimReads := 0
 		st.Lag = func(k objKey, versions int) int {
 			if k.GK != cgk || k.NS != me.NS || k.Name != me.Name {
@@ -1186,6 +1247,12 @@ func c06Run(s *c06Scn) (c06Obs, []Mon) {
 			preClaimRef = c06XRefName(cl)
 		}
 		st.After = func(c CallInfo) {
+			if f, isF := cache.faults[c.Index]; isF && f.O == "notFound" && c.GK == xgks && c.IsWrite() && preXRExists && !c.Applied {
+				lied[c.Name] = true
+			}
+			if c.GK == cgks && c.IsWrite() && c.Applied && !c.DryRun && c.NS == me.NS && c.Name == me.Name {
+				claimWritten = true
+			}
 			if c.GK == xgks && c.IsWrite() && c.Applied && !c.DryRun {
 				if preXRExists && strings.HasPrefix(preXRRef, "other") {
 					// A write or delete took effect on an XR whose stored claimRef names another claim. What did
@@ -1230,11 +1297,21 @@ func c06Run(s *c06Scn) (c06Obs, []Mon) {
 				}
 				if !preXRExists && (c.Verb == "create" || (c.Verb == "patch" && c.PatchType == "apply")) {
 					// the claim controller created XR c.Name
-					if !preClaimExists || preClaimRef != c.Name {
+					switch {
+					case (!preClaimExists || preClaimRef != c.Name) && !claimWritten && s.Syncer == "csa" && rec.Read.Found && rec.Read.Stale:
+						// FINDING (unchanged code, client-side syncer): a stale copy of the claim that already carries the
+						// reference makes Sync skip Update(claim) (existing == proposed) and AddFinalizer write nothing, so
+						// NO resourceVersion-checked claim write precedes Apply's Create: an XR is created for a claim that
+						// was deleted (and possibly re-created and bound to another XR) since the copy was current.
+						tainted[who] = true
+						addMon("C06:xr-created-from-stale-claim-without-claim-write", fmt.Sprintf("client-side syncer: XR %q created out of a stale copy of claim %s/%s (reference %q) without any claim write in this reconcile; stored claim exists: %v, its spec.resourceRef.name: %q", c.Name, me.NS, me.Name, rec.Read.Ref, preClaimExists, preClaimRef))
+					case !preClaimExists:
+						addMon("C06:xr-for-nonexistent-claim", fmt.Sprintf("XR %q created for claim %s/%s, which does not exist (the cache served a copy from before its deletion; claim write earlier in this reconcile: %v)", c.Name, me.NS, me.Name, claimWritten))
+					case preClaimRef != c.Name:
 						addMon("C06:create-before-ref", fmt.Sprintf("XR %q created while the stored spec.resourceRef.name of claim %s/%s is %q (claim exists: %v)", c.Name, me.NS, me.Name, preClaimRef, preClaimExists))
 					}
 					created[who][c.Name] = true
-					if len(created[who]) > 1 {
+					if len(created[who]) > 1 && !tainted[who] {
 						var ns []string
 						for n := range created[who] {
 							ns = append(ns, n)
@@ -1243,7 +1320,7 @@ func c06Run(s *c06Scn) (c06Obs, []Mon) {
 						addMon("C06:second-xr", fmt.Sprintf("the claim controller created XRs under %d different names for claim %s/%s: %v", len(ns), me.NS, me.Name, ns))
 					}
 				}
-				if preXRExists && preClaimExists && preClaimRef != c.Name {
+				if preXRExists && preClaimExists && preClaimRef != c.Name && !tainted[who] && !(recreated[who] && lied[c.Name]) {
 					// writes and deletes go to the XR the claim durably references, never to another one
 					addMon("C06:write-off-ref", fmt.Sprintf("%s %s addressed to XR %q while the stored spec.resourceRef.name of claim %s/%s is %q (claim exists: %v)", c.Verb, c.PatchType, c.Name, me.NS, me.Name, preClaimRef, preClaimExists))
 				}
@@ -1454,7 +1531,51 @@ func c06GenXRef(r *Rng, name string) c06Ref {
 	return c06Ref{Name: name, Group: t[0], Version: t[1], Kind: t[2]}
 }
 
+// c06GenRecreate: the claim's life ENDS inside the history and the cache keeps serving the old incarnation. A bound
+// claim is deleted (the reconcile deletes its XR and removes the finalizer: the claim is gone), in 2/3 of the cases
+// it is created again under the same name (a new object) and bound to a new XR; then reconciles whose claim read
+// lags far enough to be served the OLD bound copy (c06Rec.Lag counts stored versions across the deletion). The
+// old XR is gone (or, sometimes, still there because it carries the XR controller's finalizer).
+func c06GenRecreate(r *Rng) c06Scn {
+	s := c06Scn{Syncer: Pick(r, []string{"csa", "ssa"}), Cands: []string{"c-1", "c-2", "c-3"}}
+	s.Claim = c06Claim{Fin: true, Ref: c06XRefOf("x-a", c06XRGVK.Version)}
+	// (no XR-controller finalizer: the old XR is gone as soon as the claim controller deletes it; a terminating old XR
+	// next to the new incarnation's XR is a legitimate state in which two XRs reference the name)
+	x := c06XR{Name: "x-a", Ref: c06Self(), Labeled: true, Status: r.Bool(),
+		MF: Pick(r, []string{"legacy", "ssa", "ssa", "ssabfa"})}
+	s.XRs = []c06XR{x}
+	id := 0
+	env := func(after int, act string) c06Env { id++; return c06Env{ID: id, After: after, Act: act} }
+	rec := func(lag int, envs ...c06Env) c06Rec {
+		return c06Rec{Lag: lag, XLag: []int{}, Faults: []c06Fault{}, Env: append([]c06Env{}, envs...)}
+	}
+	// the deletion completes
+	s.Recs = append(s.Recs, rec(0, env(-1, "claimDelete")))
+	if r.Chance(1, 4) {
+		s.Recs = append(s.Recs, rec(0)) // (a reconcile request for the claim that is gone)
+	}
+	if r.Chance(2, 3) {
+		// a new claim under the same name, bound to a new XR
+		s.Recs = append(s.Recs, rec(0, env(-1, "claimCreate")))
+		if r.Bool() {
+			s.Recs = append(s.Recs, rec(0))
+		}
+	}
+	// the informer still serves the old incarnation
+	for j, n := 0, r.Range(1, 3); j < n; j++ {
+		rc := rec(Pick(r, []int{1, 2, 3, 4, 6, 30, 30, 30}))
+		if r.Chance(1, 4) {
+			rc.Faults = append(rc.Faults, c06Fault{K: r.Intn(7), O: Pick(r, c06FaultOutcomes)})
+		}
+		s.Recs = append(s.Recs, rc)
+	}
+	return s
+}
+
 func c06Gen(r *Rng, tier string) c06Scn {
+	if r.Chance(1, 12) {
+		return c06GenRecreate(r)
+	}
 	s := c06Scn{Syncer: Pick(r, []string{"csa", "ssa"})}
 	// candidate names the generator will draw; some collide with seeded XRs
 	pool := []string{"c-1", "c-2", "c-3", "x-a", "x-b"}
@@ -1547,9 +1668,14 @@ func c06Cls(s *c06Scn, o c06Obs) string {
 		}
 	}
 	stale, crash, errf, env, created, upg, del, xstale, retyped, vsw := false, false, false, false, false, false, false, false, false, false
+	gone := false                                                   // R: the cache served a copy of a claim that no longer exists, or the claim was created again under its name
 	cls, lost, wnf, cex, multi := false, false, false, false, false // injected error class, lost reply, a write answered NotFound / a create AlreadyExists by the store itself, >1 claim reconciled
 	for i, rec := range s.Recs {
 		stale = stale || rec.Read.Stale
+		gone = gone || rec.Read.Gone
+		for _, e := range rec.Env {
+			gone = gone || e.Act == "claimCreate"
+		}
 		for _, x := range rec.XReads {
 			xstale = xstale || x.Stale
 		}
@@ -1607,8 +1733,8 @@ func c06Cls(s *c06Scn, o c06Obs) string {
 	// K an injected API error class (NotFound, AlreadyExists, Invalid, Forbidden, timeout, deadline), L a reply lost after the
 	// call took effect, N a write answered NotFound / Y a Create answered AlreadyExists by the store itself (interference),
 	// M the one reconciler went from one claim to another; p<n> = n other claims in the world
-	return fmt.Sprintf("%s/p%d/%s/%s%s%s%s%s%s%s%s%s%s%s%s%s%s%s", s.Syncer, len(s.Peers), claimKind, b(stale, "S"), b(xstale, "X"), b(crash, "C"), b(errf, "F"), b(env, "E"), b(created, "A"), b(del, "D"), b(upg, "U"), b(retyped, "T"), b(vsw, "W"),
-		b(cls, "K"), b(lost, "L"), b(wnf, "N"), b(cex, "Y"), b(multi, "M"))
+	return fmt.Sprintf("%s/p%d/%s/%s%s%s%s%s%s%s%s%s%s%s%s%s%s%s%s", s.Syncer, len(s.Peers), claimKind, b(stale, "S"), b(xstale, "X"), b(crash, "C"), b(errf, "F"), b(env, "E"), b(created, "A"), b(del, "D"), b(upg, "U"), b(retyped, "T"), b(vsw, "W"),
+		b(cls, "K"), b(lost, "L"), b(wnf, "N"), b(cex, "Y"), b(multi, "M"), b(gone, "R"))
 }
 
 func c06Clone(s c06Scn) c06Scn {
